@@ -44,6 +44,8 @@ structure CState where
   strs : Array StrBuf := #[]
   /-- first memory fault or undefined behaviour met, if any -/
   fault : Option String := none
+  /-- a memory fault was met: write through NULL / freed, out-of-range write, double free -/
+  memFault : Bool := false
   /-- output of the run so far, one entry per observable event -/
   log : Array String := #[]
   deriving Repr, Inhabited
@@ -97,6 +99,9 @@ def RtCtx.hasDefault (c : RtCtx) (i : Nat) : Bool :=
 
 def CState.addFault (σ : CState) (m : String) : CState :=
   if σ.fault.isSome then σ else { σ with fault := some m, log := σ.log.push ("fault " ++ m) }
+
+def CState.addMemFault (σ : CState) (m : String) : CState :=
+  { σ.addFault m with memFault := true }
 
 def CState.str (σ : CState) (i : Nat) : StrBuf := σ.strs.getD i default
 def CState.setStr (σ : CState) (i : Nat) (b : StrBuf) : CState := { σ with strs := σ.strs.setIfInBounds i b }
@@ -154,21 +159,32 @@ def RtCtx.dump (c : RtCtx) (σ : CState) : String :=
     | t => s!"{d.name}={fmtInt (t.cty c.ro.u8 c.ro.packed) (σ.scalars.getD i 0)}"
   " ".intercalate parts
 
+/-- The guard `if (!p) p = malloc(size)` is emitted in front of writes to output `i`. -/
+def RtCtx.realloc (c : RtCtx) (i : Nat) : Bool :=
+  c.ro.onDemand && (!(c.hasDefault i) || c.ro.deleteFrees) && c.isDyn i
+
 /-- `if (!p) p = malloc(size)` of the on-demand mode. -/
 def RtCtx.onDemandAlloc (c : RtCtx) (σ : CState) (i : Nat) : CState :=
-  if c.ro.onDemand && (!(c.hasDefault i) || c.ro.deleteFrees) && c.isDyn i then
+  if c.realloc i then
     let b := σ.str i
     if b.alloc == .null then
       σ.setStr i { b with alloc := .heap, bytes := Array.replicate (c.ty i).size none }
     else σ
   else σ
 
+/-- Allocation in front of a string assignment: in `start()` the on-demand buffer of a string
+    without default is allocated unconditionally, otherwise the usual guard applies. -/
+def RtCtx.setStrAlloc (c : RtCtx) (σ : CState) (isStart : Bool) (i : Nat) : CState :=
+  if c.realloc i && isStart && !(c.hasDefault i) then
+    σ.setStr i { σ.str i with alloc := .heap, bytes := Array.replicate (c.ty i).size none }
+  else c.onDemandAlloc σ i
+
 def StrBuf.writable (b : StrBuf) : Bool := b.alloc == .inStruct || b.alloc == .heap
 
 def RtCtx.writeByte (c : RtCtx) (σ : CState) (i k v : Nat) : CState :=
   let b := σ.str i
-  if !b.writable then σ.addFault s!"write through {repr b.alloc} pointer of {(c.M.outs.getD i default).name}"
-  else if k ≥ b.bytes.size then σ.addFault s!"write past the end of {(c.M.outs.getD i default).name}"
+  if !b.writable then σ.addMemFault s!"write through {repr b.alloc} pointer of {(c.M.outs.getD i default).name}"
+  else if k ≥ b.bytes.size then σ.addMemFault s!"write past the end of {(c.M.outs.getD i default).name}"
   else σ.setStr i { b with bytes := b.bytes.setIfInBounds k (some (v % 256)) }
 
 /-- Apply one action event to the store.  Events carry the byte they observed (`substLast`), so
@@ -196,16 +212,7 @@ def RtCtx.apply (c : RtCtx) (σ : CState) (isStart : Bool) : AEv → CState
         let σ := σ.setStr i { σ.str i with counter := b.counter + 1 }
         if (c.ty i).nullTerm then c.writeByte σ i (b.counter + 1) 0 else σ
   | .setStr i bs =>
-      let σ :=
-        if c.ro.onDemand && (!(c.hasDefault i) || c.ro.deleteFrees) then
-          (if isStart && !(c.hasDefault i) then
-            σ.setStr i { σ.str i with alloc := .heap, bytes := Array.replicate (c.ty i).size none }
-           else
-            let b := σ.str i
-            if b.alloc == .null then
-              σ.setStr i { b with alloc := .heap, bytes := Array.replicate (c.ty i).size none }
-            else σ)
-        else σ
+      let σ := c.setStrAlloc σ isStart i
       let n := bs.length
       let σ := (List.range n).foldl (fun σ k => c.writeByte σ i k (bs.getD k 0)) σ
       let σ := if (c.ty i).nullTerm then c.writeByte σ i n 0 else σ
@@ -213,7 +220,7 @@ def RtCtx.apply (c : RtCtx) (σ : CState) (isStart : Bool) : AEv → CState
   | .delete i =>
       if c.ro.onDemand && c.ro.deleteFrees && !isStart && c.isDyn i then
         let b := σ.str i
-        let σ := if b.alloc == .freed then σ.addFault "double free" else σ
+        let σ := if b.alloc == .freed then σ.addMemFault "double free" else σ
         σ.setStr i { b with alloc := .null, bytes := #[], counter := 0 }
       else
         -- `if (s) s[0] = 0;` in on-demand mode, `s[0] = 0;` otherwise
@@ -308,7 +315,9 @@ def RtCtx.start (c : RtCtx) (σ0 : CState) : CState × String :=
           else { bytes := (if old.bytes.size = d.ty.size then old.bytes else Array.replicate d.ty.size none),
                  counter := 0, alloc := .inStruct }
         match d.defStr with
-        | none => base
+        | none =>
+          -- `s[0] = 0;` for a terminated string without default (not in on-demand mode: no buffer yet)
+          if d.ty.nullTerm && base.alloc != .null then { base with bytes := base.bytes.setIfInBounds 0 (some 0) } else base
         | some bs =>
           let bytes := (List.range bs.length).foldl (fun a k => a.setIfInBounds k (some (bs.getD k 0))) base.bytes
           let bytes := if d.ty.nullTerm then bytes.setIfInBounds bs.length (some 0) else bytes
@@ -421,5 +430,31 @@ def Machine.endArmsOK (M : Machine) : Bool :=
     match s.endArm with
     | none => true
     | some a => a.on.contains symEnd || a.fall || a.err
+
+end Nmfu
+
+namespace Nmfu
+
+/-- Decidable check on a call-level tree: every append is the not-full branch of the out-of-space
+    test of its own output, and every string constant fits its output. -/
+def guardedB (c : RtCtx) : CTree → Bool
+  | .ask (.full i) kt (.emit (.append j _) k) => i == j && guardedB c kt && guardedB c k
+  | .ask (.full i) kt (.emit (.appendC j _) k) => i == j && guardedB c kt && guardedB c k
+  | .ask _ kt kf => guardedB c kt && guardedB c kf
+  | .emit (.append _ _) _ => false
+  | .emit (.appendC _ _) _ => false
+  | .emit (.setStr i bs) k => decide (bs.length ≤ (c.ty i).cap) && guardedB c k
+  | .emit _ k => guardedB c k
+  | .leaf _ => true
+
+/-- Per-machine check used by C03: sizes leave room for the terminator, defaults fit, every
+    call tree (all states, all symbols) and the start actions are guarded. -/
+def RtCtx.safeCheck (c : RtCtx) : Bool :=
+  ((List.range c.M.outs.size).all fun i =>
+    let d := c.M.outs.getD i default
+    decide (d.ty.cap ≤ d.ty.size) && (!d.ty.nullTerm || decide (d.ty.cap < d.ty.size)) &&
+    (match d.defStr with | some bs => decide (bs.length ≤ d.ty.cap) | none => true)) &&
+  ((List.range c.M.states.size).all fun s =>
+    (List.range nSym).all fun x => guardedB c (c.M.call c.semOpts s x))
 
 end Nmfu
